@@ -499,7 +499,17 @@ impl<'a> Value<'a> {
 
     /// Compares two values for sorting, treating NULL as less than any non-NULL value.
     pub fn compare_for_sort(&self, other: &Value) -> Ordering {
-        self.compare(other).unwrap_or(Ordering::Equal)
+        match (self, other) {
+            (Value::Null, Value::Null) => Ordering::Equal,
+            (Value::Null, _) => Ordering::Less,
+            (_, Value::Null) => Ordering::Greater,
+            // compare() leaves only NaN unordered: order it after every number so the relation stays total
+            _ => self.compare(other).unwrap_or_else(|| {
+                let a_nan = matches!(self, Value::Float(f) if f.is_nan());
+                let b_nan = matches!(other, Value::Float(f) if f.is_nan());
+                a_nan.cmp(&b_nan)
+            }),
+        }
     }
 
     /// Clones this value into an arena allocator with the arena's lifetime.
